@@ -24,7 +24,8 @@ Record cond := { c_err : err; c_state : pstate; c_pid0 : bool }.
    Process object's pid and cached name; RRaw = the OSError instance raised by the native
    call leaves the method unchanged; RVal = the method returns normally. *)
 Inductive res := RNoSuch | RZombie | RDenied | RRaw | RVal
-             | RTimeout.     (* TimeoutExpired(seconds, pid, name): wait() only *)
+             | RTimeout      (* TimeoutExpired(seconds, pid, name): wait() only *)
+             | RRawProbe.    (* the OSError of a follow-up probe of the error path (is_zombie / pid_exists / pids) leaves bare *)
 
 (* CPython: OSError(errno, ...) is constructed as the subclass PEP 3151 assigns *)
 Inductive pycls := CLookup | CNotFound | CPerm | COSError.
@@ -176,6 +177,73 @@ Definition inner_nocall (p : plat) (meth site : string) (c : cond) : option res 
   end.
 Definition all_outcome (p : plat) (meth site : string) (c : cond) : res :=
   match inner_nocall p meth site c with Some r => r | None => wrap p c end.
+
+(* ------------------------------------------------------------------ the follow-up probes of the error path fail too *)
+(* Double fault: the method's native call fails with e1 AND every probe the error path then makes -- is_zombie's
+   kinfo re-read (BSD, macOS; guarded by "except OSError: return False"), pid_exists (Solaris: _psposix.pid_exists ->
+   os.kill, which only absorbs ESRCH / EPERM; AIX: os.path.exists, which absorbs everything; PID 0: True without asking),
+   pids() for the PID-0 rule (cext.pids / os.listdir, unguarded) -- fails with e2.
+   [wrap_pf p e e2 z]: the decorator catching OSError e; RRaw = it re-raises what it caught. *)
+Definition wrap_pf (p : plat) (e e2 : err) (z : bool) : res :=
+  match p with
+  | FreeBSD | OpenBSD | NetBSD =>
+      match pycls_of e with
+      | CLookup => RNoSuch                               (* is_zombie() -> False *)
+      | CPerm => RDenied
+      | _ => if z then RRawProbe else RRaw               (* 0 in pids(): pids() raises e2 inside the handler *)
+      end
+  | MacOS => match pycls_of e with CLookup => RNoSuch | CPerm => RDenied | _ => RRaw end
+  | SunOS =>
+      match pycls_of e with
+      | CLookup | CNotFound =>
+          if z then RZombie                              (* pid_exists(0) is True without a probe *)
+          else match pycls_of e2 with
+               | CLookup => RNoSuch                      (* os.kill -> ESRCH -> False *)
+               | CPerm => RZombie                        (* os.kill -> EPERM -> True *)
+               | _ => RRawProbe                          (* any other error of os.kill leaves pid_exists() *)
+               end
+      | CPerm => RDenied
+      | COSError => if z then RRawProbe else RRaw
+      end
+  | AIX => match pycls_of e with CLookup | CNotFound => RNoSuch | CPerm => RDenied | COSError => RRaw end
+  | Windows => wrap Windows (Build_cond e Alive z)       (* no probe in convert_oserror *)
+  end.
+(* an enclosing decorated method sees the probe's error e2 and translates it again *)
+Definition retrans (p : plat) (e2 : err) (z : bool) : res :=
+  match wrap_pf p e2 e2 z with RRaw => RRawProbe | r => r end.
+Definition nested_pf (p : plat) (e1 e2 : err) (z : bool) : res :=
+  match wrap_pf p e1 e2 z with RRawProbe => retrans p e2 z | r => r end.
+(* native calls made through a decorated helper (oneshot(), _proc_basic_info(), _proc_name_and_args(), cmdline() ...) *)
+Definition g_nested (p : plat) (meth site : string) : bool :=
+  match p with
+  | FreeBSD | NetBSD => seq site "proc_oneshot_info" && negb (seq meth "oneshot")
+  | OpenBSD => (seq site "proc_oneshot_info" && negb (seq meth "oneshot")) || seq meth "exe" || seq meth "num_threads"
+  | SunOS => seq site "proc_basic_info" || seq site "proc_name_and_args"
+  | _ => false
+  end.
+Definition probe_outcome (p : plat) (meth site : string) (e1 e2 : err) (z : bool) : res :=
+  let c1 := Build_cond e1 Alive z in
+  match p with
+  | Windows => method_outcome p meth site c1
+  | NetBSD =>
+      if g_netbsd_cmdline meth site && is_einval e1 then
+        (if z then RVal else match pycls_of e2 with CPerm => RVal | _ => retrans NetBSD e2 z end)
+      else if g_netbsd_exe meth site then
+        match wrap_procfs c1 with Some RZombie => RNoSuch | Some r => r | None => wrap_pf p e1 e2 z end
+      else if g_nested p meth site then nested_pf p e1 e2 z else wrap_pf p e1 e2 z
+  | SunOS =>
+      if g_sunos_cred meth site then
+        match wrap_pf SunOS e1 e2 z with RDenied => RVal | RRawProbe => retrans SunOS e2 z | r => r end
+      else if g_sunos_exe meth site then RVal
+      else if g_sunos_path meth site && is_enoent e1 then RVal
+      else if g_sunos_thread meth site && is_enoent e1 then RVal
+      else if g_nested p meth site then nested_pf p e1 e2 z else wrap_pf p e1 e2 z
+  | AIX =>
+      if g_aix_cwd meth site && is_enoent e1 then RVal
+      else if g_aix_io meth site then RNoSuch           (* pid_exists() -> False whatever the probe's error *)
+      else wrap_pf p e1 e2 z
+  | _ => if g_nested p meth site then nested_pf p e1 e2 z else wrap_pf p e1 e2 z
+  end.
 
 (* ------------------------------------------------------------------ two native calls in one method *)
 (* (first call fails with e1, the second route's call fails with e2); the pairs the code has:
